@@ -150,7 +150,7 @@ macro_rules! leaf {
     };
 }
 
-// @ob name=c_bitslice props=C02,C04,C20 fn=aes::soft::fixslice::bitslice timeout=300
+// @ob name=c_bitslice props=C03,C02,C04,C20 cfg=default,compact fn=aes::soft::fixslice::bitslice timeout=300
 #[kani::proof]
 #[kani::unwind(17)]
 fn c_bitslice() {
@@ -162,7 +162,7 @@ fn c_bitslice() {
     bitslice(&mut out, &b0, &b1, &b2, &b3);
     assert!(eq8(&out, &spec_bitslice(&blocks)));
 }
-// @ob name=c_inv_bitslice props=C02,C04,C20 fn=aes::soft::fixslice::inv_bitslice timeout=300
+// @ob name=c_inv_bitslice props=C03,C02,C04,C20 cfg=default,compact fn=aes::soft::fixslice::inv_bitslice timeout=300
 #[kani::proof]
 #[kani::unwind(17)]
 fn c_inv_bitslice() {
@@ -184,31 +184,36 @@ fn l_bitslice_bijection() {
     assert!(back[j][i] == blocks[j][i]);
 }
 
-// @ob name=c_sub_bytes props=C02,C17,C20 fn=aes::soft::fixslice::sub_bytes timeout=600
+// @ob name=c_sub_bytes props=C03,C02,C17,C20 cfg=default,compact fn=aes::soft::fixslice::sub_bytes timeout=600
 leaf!(c_sub_bytes, sub_bytes, spec_sub_bytes, cadical);
 // @ob name=c_sub_bytes_nots props=C02,C17,C20 fn=aes::soft::fixslice::sub_bytes_nots timeout=300
 leaf!(c_sub_bytes_nots, sub_bytes_nots, spec_sub_bytes_nots, cadical);
-// @ob name=c_inv_sub_bytes props=C02,C17,C20 fn=aes::soft::fixslice::inv_sub_bytes timeout=600
+// @ob name=c_inv_sub_bytes props=C03,C02,C17,C20 cfg=default,compact fn=aes::soft::fixslice::inv_sub_bytes timeout=600
 leaf!(c_inv_sub_bytes, inv_sub_bytes, spec_inv_sub_bytes, cadical);
-// @ob name=c_mix_columns_0 props=C02,C17,C20 fn=aes::soft::fixslice::mix_columns_0 timeout=600
+// @ob name=c_mix_columns_0 props=C03,C02,C17,C20 cfg=default,compact fn=aes::soft::fixslice::mix_columns_0 timeout=600
 leaf!(c_mix_columns_0, mix_columns_0, spec_mix_columns_0, cadical);
-// @ob name=c_mix_columns_1 props=C02,C20 fn=aes::soft::fixslice::mix_columns_1 timeout=600
+// @ob name=c_mix_columns_1 props=C03,C02,C20 cfg=default,compact fn=aes::soft::fixslice::mix_columns_1 timeout=600
 leaf!(c_mix_columns_1, mix_columns_1, spec_mix_columns_1, cadical);
 // @ob name=c_mix_columns_2 props=C02,C20 fn=aes::soft::fixslice::mix_columns_2 timeout=600
+#[cfg(not(aes_compact))]
 leaf!(c_mix_columns_2, mix_columns_2, spec_mix_columns_2, cadical);
 // @ob name=c_mix_columns_3 props=C02,C20 fn=aes::soft::fixslice::mix_columns_3 timeout=600
+#[cfg(not(aes_compact))]
 leaf!(c_mix_columns_3, mix_columns_3, spec_mix_columns_3, cadical);
-// @ob name=c_inv_mix_columns_0 props=C02,C17,C20 fn=aes::soft::fixslice::inv_mix_columns_0 timeout=600
+// @ob name=c_inv_mix_columns_0 props=C03,C02,C17,C20 cfg=default,compact fn=aes::soft::fixslice::inv_mix_columns_0 timeout=600
 leaf!(c_inv_mix_columns_0, inv_mix_columns_0, spec_inv_mix_columns_0, cadical);
-// @ob name=c_inv_mix_columns_1 props=C02,C20 fn=aes::soft::fixslice::inv_mix_columns_1 timeout=600
+// @ob name=c_inv_mix_columns_1 props=C03,C02,C20 cfg=default,compact fn=aes::soft::fixslice::inv_mix_columns_1 timeout=600
 leaf!(c_inv_mix_columns_1, inv_mix_columns_1, spec_inv_mix_columns_1, cadical);
 // @ob name=c_inv_mix_columns_2 props=C02,C20 fn=aes::soft::fixslice::inv_mix_columns_2 timeout=600
+#[cfg(not(aes_compact))]
 leaf!(c_inv_mix_columns_2, inv_mix_columns_2, spec_inv_mix_columns_2, cadical);
 // @ob name=c_inv_mix_columns_3 props=C02,C20 fn=aes::soft::fixslice::inv_mix_columns_3 timeout=600
+#[cfg(not(aes_compact))]
 leaf!(c_inv_mix_columns_3, inv_mix_columns_3, spec_inv_mix_columns_3, cadical);
-// @ob name=c_shift_rows_2 props=C02,C20 fn=aes::soft::fixslice::shift_rows_2,aes::soft::fixslice::inv_shift_rows_2 timeout=300
+// @ob name=c_shift_rows_2 props=C03,C02,C20 cfg=default,compact fn=aes::soft::fixslice::shift_rows_2,aes::soft::fixslice::inv_shift_rows_2 timeout=300
 leaf!(c_shift_rows_2, shift_rows_2, spec_shift_rows_2, cadical);
-// @ob name=c_inv_shift_rows_1 props=C02,C20 fn=aes::soft::fixslice::inv_shift_rows_1,aes::soft::fixslice::shift_rows_3 timeout=300
+// @ob name=c_inv_shift_rows_1 props=C03,C02,C20 cfg=default,compact fn=aes::soft::fixslice::inv_shift_rows_1,aes::soft::fixslice::shift_rows_3 timeout=300
 leaf!(c_inv_shift_rows_1, inv_shift_rows_1, spec_shift_rows_3, cadical);
 // @ob name=c_inv_shift_rows_3 props=C02,C20 fn=aes::soft::fixslice::inv_shift_rows_3,aes::soft::fixslice::shift_rows_1 timeout=300
+#[cfg(not(aes_compact))]
 leaf!(c_inv_shift_rows_3, inv_shift_rows_3, spec_shift_rows_1, cadical);
